@@ -149,6 +149,58 @@ def quick_skip(tier, dn):
     return 3 <= d.day <= 26
 
 
+
+# ------------------------------------------------------------------------------------------- histories (C15, C16)
+def gen_time_history(rng):
+    """operations on a TimeScale and its copies: ("domain", i, d0, d1) ("range", i, r0, r1) ("nice", i, m) ("copy", i) ("ticks", i, m)
+    ("call", i, t)"""
+    d0, d1 = gen_domain(rng)
+    ops = [("domain", 0, d0, d1)]
+    n = 1
+    for _ in range(rng.randint(2, 7)):
+        c = rng.random()
+        i = rng.randrange(n)
+        if c < 0.25:
+            ops.append(("copy", i)); n += 1
+        elif c < 0.5:
+            a, b = gen_domain(rng)
+            ops.append(("domain", i, a, b))
+        elif c < 0.7:
+            ops.append(("ticks", i, rng.choice([None, 10, 5, 10, 3])))
+        elif c < 0.8:
+            ops.append(("nice", i, rng.choice([None, 10, 5])))
+        elif c < 0.9:
+            ops.append(("range", i, rng.choice([0, -20, 7.5]), rng.choice([100, 360, 1000])))
+        else:
+            ops.append(("call", i, rng.randint(LO, HI)))
+    return ops
+
+
+def run_time_history(ops, m):
+    """returns per object (reported domain in ms, reported range, ticks(m) in ms) after the history"""
+    from labella.scale import TimeScale
+    objs = [TimeScale()]
+    for o in ops:
+        s = objs[o[1]]
+        if o[0] == "domain":
+            s.domain([to_dt(o[2]), to_dt(o[3])])
+        elif o[0] == "range":
+            s.range([o[2], o[3]])
+        elif o[0] == "nice":
+            s.nice(o[2]) if o[2] is not None else s.nice()
+        elif o[0] == "copy":
+            objs.append(s.copy())
+        elif o[0] == "ticks":
+            s.ticks(o[2]) if o[2] is not None else s.ticks()
+        elif o[0] == "call":
+            s(to_dt(o[2]))
+    out = []
+    for s in objs:
+        d = [to_ms(x) for x in s.domain()]
+        tk = s.ticks(m) if m is not None else s.ticks()
+        out.append((d, list(s.range()), tk))
+    return out
+
 # ------------------------------------------------------------------------------------------- C16
 def body_c16(tier, seed, rep, only_prop=False, scale=1):
     from labella.scale import TimeScale
@@ -165,6 +217,22 @@ def body_c16(tier, seed, rep, only_prop=False, scale=1):
             lines.append("tticks|%d|%d|%s|%s" % (d0, d1, fr(10 if m is None else m), msl(tk))); metas.append(meta)
         except Exception as e:
             rep.prop_fail.append(("ticks() raised %s: %s" % (type(e).__name__, e), {"case": meta}))
+    # the ticks must be those of the domain the scale reports NOW, whatever happened before to this object and to its copies
+    for _ in range((1500 if tier == "quick" else 20000) * scale):
+        ops = gen_time_history(rng)
+        used = [o[2] for o in ops if o[0] == "ticks"]
+        m = rng.choice(used) if used and rng.random() < 0.7 else rng.choice([None, 10, 5, 3])
+        meta = {"kind": "tticks-history", "ops": ops, "m": m}
+        try:
+            with time_limit(10):
+                res = run_time_history(ops, m)
+        except Exception as e:
+            rep.prop_fail.append(("ticks() raised %s after a history: %s" % (type(e).__name__, e), {"case": meta})); continue
+        for k, (d, r, tk) in enumerate(res):
+            if d[0] == d[1]:
+                continue
+            lines.append("tticks|%d|%d|%s|%s" % (d[0], d[1], fr(10 if m is None else m), msl(tk))); metas.append(dict(meta, obj=k, d0=d[0], d1=d[1]))
+            rep.count("ticks-after-history")
     answers = drive(lines)
     for line, meta, ans in zip(lines, metas, answers):
         f = fields(ans)
@@ -274,6 +342,9 @@ def replay_case(pid, replay):
         s = TimeScale().domain([to_dt(m["d0"]), to_dt(m["d1"])])
         tk = s.ticks(m["m"]) if m["m"] is not None else s.ticks()
         line = "tticks|%d|%d|%s|%s" % (m["d0"], m["d1"], fr(10 if m["m"] is None else m["m"]), msl(tk))
+    elif m["kind"] == "tticks-history":
+        d, r, tk = run_time_history([tuple(o) for o in m["ops"]], m["m"])[m["obj"]]
+        line = "tticks|%d|%d|%s|%s" % (d[0], d[1], fr(10 if m["m"] is None else m["m"]), msl(tk))
     elif m["kind"] == "tscale":
         s = TimeScale().domain([to_dt(m["d0"]), to_dt(m["d1"])]).range([m["r0"], m["r1"]])
         y = s(to_dt(m["t"]))
